@@ -174,15 +174,31 @@ def oracle_c15_life(cid, impl, m):
     lres = impl.get("lres", "")
     kind = impl.get("kind")
     ok = {m.get("res0")}
-    if kind in ("cancel", "precancel"):
+    if kind in ("cancel", "precancel", "batchcancel"):
         ok |= {"unknown/ctx", "notMember/ctx"}
     if kind in ("fault", "corpus"):
         ok |= {m.get("res"), "unknown/storage", "notMember/storage"}
+    if kind == "batchfault":
+        # the k-th storage call of the WHOLE batch fails: an entry answers what its own check answers, or
+        # carries the storage error
+        ok |= {"unknown/storage", "notMember/storage"}
     if lres not in ok:
         return ("c15-result", f"{kind}: answered {lres}, expected one of {sorted(x for x in ok if x)}")
     if lres.startswith("isMember/") and not lres.endswith("/none"):
         return ("c15-allowed-with-error", f"{lres}")
     return True
+
+
+def oracle_c03_batch(cid, impl, m):
+    """Engine.BatchCheck with a failing storage call / a cancelled request: every entry is either the
+    answer of its own undisturbed check or carries the error; never 'allowed' together with an error,
+    and never another entry's answer."""
+    if not impl.get("kind", "").startswith("batch"):
+        return None
+    r = oracle_c15_life(cid, dict(impl, leak="0"), m)
+    if r is True or r is None:
+        return r
+    return ("c03-batch:" + r[0], r[1])
 
 
 def oracle_c15_wide(cid, impl, m):
@@ -1050,8 +1066,9 @@ PROPS = {
                      "Keto.C03_and_error_not_member", "Keto.C03_error_never_member", "Keto.C03_checkIsMember_true",
                      "Keto.C03_fault_answer_exact_all", "Keto.C03_fault_independent_all",
                      "Keto.build_err_not_member"],
-        "streams": [{"name": "engine-c03", "n": {"quick": 150, "thorough": 500}, "oracle": oracle_c03, "thorough_seeds": 2}],
-        "rule": ENGINE_RULE + "; for every generated case the k-th storage call fails for every k up to min(N,14), transiently and persistently; and each case is re-run with one stored row at a time made undecodable, so that the queries that fetch it fail while rows are scanned (a fault below the Manager/Traverser interface)",
+        "streams": [{"name": "engine-c03", "n": {"quick": 150, "thorough": 500}, "oracle": oracle_c03, "thorough_seeds": 2},
+                    {"name": "engine-life", "n": {"quick": 40, "thorough": 300}, "oracle": oracle_c03_batch, "thorough_seeds": 2}],
+        "rule": ENGINE_RULE + "; for every generated case the k-th storage call fails for every k up to min(N,14), transiently and persistently; and each case is re-run with one stored row at a time made undecodable, so that the queries that fetch it fail while rows are scanned (a fault below the Manager/Traverser interface); stream engine-life: Engine.BatchCheck over 2-6 queries on the same state with the k-th storage call of the whole batch failing, or the request cancelled there (one line per entry)",
         "partial": "",
         "assumptions": [],
     },
